@@ -66,12 +66,16 @@ func init() {
 			{Rule: "EFFECT-GLOBAL", Bad: "canaryBadGlobalCache", Good: "canaryGoodLocalCache"},
 			{Rule: "EFFECT-PARAM", Bad: "canaryBadSortInput", Good: "canaryGoodSortCopy"},
 			{Rule: "NOCONCURRENCY", Bad: "canaryBadGo", Good: ""},
+			{Rule: "GLOBALS", Bad: "canaryFirstShift", Good: "canaryPow2Table"},
+			{Rule: "GOSHARED", Bad: "canaryBadSharedParser", Good: "canaryGoodWorkers"},
 		},
 	})
 }
 
 func runC19(w *World, r *Report, tier string) {
 	r.Rule("GLOBALS", "every package-level variable of the module is written only by its package initialiser")
+	ruleGoShared(w, r)
+	rulePoolReset(w, r)
 	r.Rule("EFFECT-GLOBAL", "no function reachable from an exported function or method (dependencies included) writes memory reachable from a package-level variable of a non-standard-library package")
 	r.Rule("EFFECT-PARAM", "no exported function or method writes memory reachable from its parameters; methods named Set*/Reset* and HighSpatialID.Merge may write their receiver only")
 	r.Rule("EFFECT-UNKNOWN", "no reachable write goes through an address whose origin the analysis cannot trace")
@@ -110,6 +114,7 @@ func runC19(w *World, r *Report, tier string) {
 	r.Notes = append(r.Notes, "dependency functions analysed from SSA bodies: "+strings.Join(depList, ", "))
 
 	// 1. globals of the module
+	onceInit := onceInitClosures(w)
 	for _, rel := range sortedKeys(w.SSAPkg) {
 		sp := w.SSAPkg[rel]
 		for _, name := range sortedKeys(sp.Members) {
@@ -121,12 +126,17 @@ func runC19(w *World, r *Report, tier string) {
 			bad := ""
 			pos := w.Pos(g.Pos())
 			for _, f := range w.ModFuncs {
-				if w.IsCanary(f) {
+				if w.IsCanary(f) && !strings.HasPrefix(name, "canary") {
 					continue
 				}
 				isInit := f.Name() == "init" || strings.HasPrefix(f.Name(), "init#")
+				// the function literal handed to Do of a package-level sync.Once runs at most once,
+				// before any reader that went through the same Do: a lazily built read-only table
+				if onceInit[f] {
+					isInit = true
+				}
 				instrs(f, func(in ssa.Instruction) {
-					if isInit && f.Pkg == sp {
+					if isInit && (f.Pkg == sp || onceInit[f]) {
 						return
 					}
 					switch x := in.(type) {
@@ -164,7 +174,21 @@ func runC19(w *World, r *Report, tier string) {
 				ws = append(ws, g.String()+": "+wit.String())
 			}
 			sort.Strings(ws)
-			r.Add(Obligation{Rule: "EFFECT-GLOBAL", Key: "EFFECT-GLOBAL / " + name, Pos: pos, Status: Violated, Detail: "writes package-level state: " + strings.Join(ws, "; "), Canary: can})
+			// a package-level sync.Pool: Get/Put mutate the pool, but what a call computes depends
+			// on it only if a scratch buffer is used without being reset -- not followed here
+			onlyPool := true
+			for _, wit := range s.WritesGlobal {
+				if !strings.Contains(wit.String(), "(*sync.Pool).") {
+					onlyPool = false
+				}
+			}
+			st := Violated
+			detail := "writes package-level state: " + strings.Join(ws, "; ")
+			if onlyPool {
+				st = Undecided
+				detail = "takes scratch buffers from a package-level sync.Pool (results are independent of earlier calls only if every buffer is reset before use, which is not followed): " + strings.Join(ws, "; ")
+			}
+			r.Add(Obligation{Rule: "EFFECT-GLOBAL", Key: "EFFECT-GLOBAL / " + name, Pos: pos, Status: st, Detail: detail, Canary: can})
 		} else {
 			r.Add(Obligation{Rule: "EFFECT-GLOBAL", Key: "EFFECT-GLOBAL / " + name, Pos: pos, Status: Discharged, Detail: "no write to package-level state in the call-graph closure", Canary: can})
 		}
@@ -253,4 +277,49 @@ func rootGlobal(v ssa.Value) *ssa.Global {
 		}
 	}
 	return nil
+}
+
+// onceInitClosures: function literals (and their own literals) passed to
+// (*sync.Once).Do whose receiver is a package-level sync.Once of the module.
+func onceInitClosures(w *World) map[*ssa.Function]bool {
+	out := map[*ssa.Function]bool{}
+	var mark func(f *ssa.Function)
+	mark = func(f *ssa.Function) {
+		if f == nil || out[f] {
+			return
+		}
+		out[f] = true
+		for _, a := range f.AnonFuncs {
+			mark(a)
+		}
+	}
+	for _, f := range w.ModFuncs {
+		if f.Blocks == nil {
+			continue
+		}
+		instrs(f, func(in ssa.Instruction) {
+			c, ok := in.(*ssa.Call)
+			if !ok {
+				return
+			}
+			cal := c.Call.StaticCallee()
+			if cal == nil || cal.Name() != "Do" || pkgOf(cal) == nil || pkgOf(cal).Path() != "sync" || len(c.Call.Args) != 2 {
+				return
+			}
+			if rootGlobal(c.Call.Args[0]) == nil {
+				return
+			}
+			switch x := c.Call.Args[1].(type) {
+			case *ssa.MakeClosure:
+				// a literal that captured something of the calling activation builds a table that
+				// depends on the first caller: not a read-only constant table
+				if fn, ok := x.Fn.(*ssa.Function); ok && len(fn.FreeVars) == 0 {
+					mark(fn)
+				}
+			case *ssa.Function:
+				mark(x)
+			}
+		})
+	}
+	return out
 }
